@@ -23,25 +23,11 @@ func (e *Entry) Inspect() string {
 }
 
 func (e *Entry) Interface() interface{} {
-	return map[string]interface{}{
-		"key":   e.key.Interface(),
-		"value": e.value.Interface(),
-	}
+	return e.interfaceVisit(&visit{})
 }
 
 func (e *Entry) Equals(other Object) Object {
-	switch other := other.(type) {
-	case *Entry:
-		if e.key.Equals(other.key) != True {
-			return False
-		}
-		if e.value.Equals(other.value) != True {
-			return False
-		}
-		return True
-	default:
-		return False
-	}
+	return NewBool(e.equalsVisit(other, &visit{}))
 }
 
 func (e *Entry) GetAttr(name string) (Object, bool) {
